@@ -6,6 +6,8 @@ CONSTANTS
   MaxT = 3
   MaxRolls = 2
   MaxEp = 8
+  Mode = "auto"
+  ResetClears = FALSE
   FlagRule = "term"
 INVARIANT FlagsMarkEpisodeStarts
 CONSTRAINT Bound
